@@ -1141,6 +1141,16 @@ impl Transaction {
                 return false;
             }
 
+            // while no stake is required the producer attaches a staking transaction that stakes
+            // nothing: no inputs, no payload, outputs without an amount. it moves no value and names no
+            // sender, so none of the checks below has anything to look at
+            if self.from.is_empty()
+                && self.data.is_empty()
+                && self.to.iter().all(|slip| slip.amount == 0)
+            {
+                return true;
+            }
+
             // a staking transaction is sent by a user like any other : the sender, signature,
             // ownership, value and utxo checks below apply to it as well
         }
